@@ -435,8 +435,12 @@ func (o *Oracle) onSnapDurable(inc *Inc, rec *SnapRec) {
 			// taken earlier may legitimately carry exactly the committed one at that time, which
 			// is also <= idx, so only an index beyond idx or unknown configuration is wrong.
 			if rec.Meta.ConfigurationIndex > idx || !o.isKnownConfig(rec.Meta.ConfigurationIndex, rec.Meta.Configuration) {
-				w.violate("C11", "C11/snapshot-configuration-mismatch", "%s snapshot %s at %d carries configuration %d {%s}, committed history has %d {%s}",
-					inc.tag, rec.Meta.ID, idx, rec.Meta.ConfigurationIndex, idsOf(rec.Meta.Configuration), wantIdx, idsOf(wantCfg))
+				known := ""
+				for _, r := range o.cfgs {
+					known += fmt.Sprintf("(%d,t%d,{%s}) ", r.idx, r.term, idsOf(r.cfg))
+				}
+				w.violate("C11", "C11/snapshot-configuration-mismatch", "%s snapshot %s at %d carries configuration %d {%s}, committed history has %d {%s}; configurations ever stored: %s",
+					inc.tag, rec.Meta.ID, idx, rec.Meta.ConfigurationIndex, idsOf(rec.Meta.Configuration), wantIdx, idsOf(wantCfg), known)
 			} else if rec.Meta.ConfigurationIndex < wantIdx {
 				w.violate("C11", "C11/snapshot-configuration-stale", "%s snapshot %s at %d carries configuration %d {%s} but configuration %d {%s} is committed at or below that index",
 					inc.tag, rec.Meta.ID, idx, rec.Meta.ConfigurationIndex, idsOf(rec.Meta.Configuration), wantIdx, idsOf(wantCfg))
@@ -719,11 +723,10 @@ func (o *Oracle) wonElection(node int, term uint64) bool {
 	w := o.w
 	n := w.nodes[node]
 	got := 0
-	if n.disk.kvInt["LastVoteTerm"] == term && string(n.disk.kv["LastVoteCand"]) == string(n.addr) {
-		got++
-	}
+	// o.votes holds every vote the simulator saw granted in a response or durably recorded
+	// (the candidate's own vote included, through its persistVote)
 	for k, cand := range o.votes {
-		if k.term == term && int(k.idx) != node && cand == string(n.id) {
+		if k.term == term && cand == string(n.id) {
 			got++
 		}
 	}
@@ -859,6 +862,19 @@ func (o *Oracle) onHandled(inc *Inc, m *Msg) {
 			} else {
 				o.votes[k] = cand
 			}
+			// the vote durably recorded for this very term when the request arrived names someone
+			// else: whoever recorded it (usually an earlier incarnation) is being ignored
+			if f := m.Pre; f != nil {
+				candBytes := string(req.Addr)
+				if candBytes == "" {
+					candBytes = string(req.Candidate)
+				}
+				if f.voteTerm == req.Term && f.voteCand != "" && f.voteCand != candBytes {
+					v := w.violate("C10", "C10/durable-vote-ignored", "s%d#%d grants its vote in term %d to %s although its stable store already held a vote for %s in that term when the request arrived",
+						m.Dst, inc.n, req.Term, cand, f.voteCand)
+					v.Facts["voter"] = fmt.Sprint(m.Dst)
+				}
+			}
 			// the conditions of a grant are checked on the first grant of a term; a repeated
 			// grant to the same candidate in the same term only confirms it
 			if f := m.Pre; f != nil && m.DstInc == inc.n && !regrant {
@@ -987,6 +1003,7 @@ func (o *Oracle) poll() {
 		}
 		if _, _, latest, lidx := r.VerifConfigurations(); lidx != inc.lastCfgIdx || len(inc.cfgHist) == 0 {
 			inc.lastCfgIdx = lidx
+			inc.cfgChangedAt = w.now()
 			inc.cfgHist = append(inc.cfgHist, cfgHistRec{seq: w.sim.Seq(), idx: lidx, cfg: latest.Clone()})
 		}
 		o.checkIsolation(inc, term)
@@ -1012,7 +1029,15 @@ func (o *Oracle) poll() {
 		}
 		if state == raft.Follower && !w.s2 {
 			if _, lid := r.LeaderWithID(); lid != "" {
-				if l, ok := o.leaders[term]; !ok || w.nodes[l.node].id != lid {
+				l, ok := o.leaders[term]
+				// a server can win an election and lose leadership again within one scheduling step
+				// (its first StoreLogs fails) while its replication goroutines already run: the
+				// votes it collected are then the evidence that it really was leader of the term
+				wonUnseen := false
+				if nn := w.nodeByID(lid); !ok && nn != nil && o.wonElection(nn.idx, term) {
+					wonUnseen = true
+				}
+				if !wonUnseen && (!ok || w.nodes[l.node].id != lid) {
 					who := "nobody"
 					if ok {
 						who = string(w.nodes[l.node].id)
